@@ -184,8 +184,8 @@ def run_family(chk, mode, props_file, rule):
     built = pipefam.standard_obligations(chk, props_file)
     r = chk.rng("interrupt")
     quick = chk.tier == "quick"
-    nworlds = 2 if quick else 5
-    per_scen = 22 if quick else 400
+    nworlds = 2 if quick else 3
+    per_scen = 22 if quick else 300
     scen_idx = {0: [0, 1, 2, 6, 9], 1: [3, 4, 5, 7, 8]} if quick else {i: list(range(len(SCENARIOS))) for i in range(nworlds)}
     if quick and not built:
         # a proof obligation or the translated cache decisions no longer check: widen the search for a failing crash point
